@@ -666,7 +666,7 @@ func runClean(e *s3env.Env, out *hx.Out, r *hx.Rng) {
 
 func main() {
 	out := hx.Flags("C29", 400)
-	out.Rule = "first 3 cases: the snapshots of the three fixtures as built (fx0: b with obj, x/y, .uploads/u1/0001.part; other with obj, keep, .uploads/u2/0001.part; /etc/secret. fx1: the upload id is a file, obj a directory, x a file, an empty folder e, a bucket bb, other with .uploads/u1. fx2: empty bucket b, a bucket named .uploads, a bucket named %62 with an upload u1, /obj and /b/obj at the root); then 15 fixed witnesses of the findings (k2: GET / DELETE / POST upload / put part on bucket '%62', GET on bucket '%2e%2e'), 4 former witnesses that are repaired (DELETE /., GET /../etc/secret, POST uploads: verdict 0) and 11 fixed ordinary requests (cross-bucket copy / part copy, put part, complete, batch delete with purge, listing, POST upload, buckets '...' and '..b', list parts of bucket '%62'); then 3 of 4 cases: one S3 request on a fixture (0,0,0,1,1,2 uniform; rebuilt before every request), bucket b (13/24), other, bb, nb, .uploads, the names '..' / '.' written literally or percent-encoded (refused by the router: no call), '%62' (2/24) or another name with a '%' (%6fther, %2e%2e, %2e, %zz, b%2fx, %2562, %62b, %2euploads, %6; written with %25), or a dotted name the router accepts (..., .b, ..b, b., b.., .%2e.), route uniform over 20 routes (put/get/head/delete object, batch delete, copy with/without REPLACE, copy part, new/put-part/complete/abort/list-parts, get/put/delete tagging, list objects V1/V2 x2, list uploads, put/delete/head bucket, POST upload x2 through a second gateway with an identity), key = 1-6 segments over {x,y,obj,new,..,.,empty,.uploads,u1,other,etc,secret,b,buckets,0001.part,%2e%2e,bb,e,%2f,%252e%252e} with optional leading/trailing slash or a fixed hostile/benign key (climbing, non-climbing '..', .uploads via '..'), written literally or with %2e%2e / %2f escapes; upload ids, copy sources (single, double and triple encoded '..' and '/'), listing prefixes and markers from fixed hostile lists or a generated key; 1 of 4 cases: a random path over {a,b,..,.,empty,.uploads,buckets} through Go's path.Clean, the real ServeMux, util.JoinPath, FullPath.DirAndName, filepath.Base/Dir; non-trivial = 2xx answer (request) / cleaning changed the path (clean); distinct = canonical decoded request incl. fixture"
+	out.Rule = "first 3 cases: the snapshots of the three fixtures as built (fx0: b with obj, x/y, .uploads/u1/0001.part; other with obj, keep, .uploads/u2/0001.part; /etc/secret. fx1: the upload id is a file, obj a directory, x a file, an empty folder e, a bucket bb, other with .uploads/u1. fx2: empty bucket b, a bucket named .uploads, a bucket named %62 with an upload u1, /obj and /b/obj at the root); then 15 fixed witnesses of the findings (k2: GET / DELETE / POST upload / put part on bucket '%62', GET on bucket '%2e%2e'), 4 former witnesses that are repaired (DELETE /., GET /../etc/secret, POST uploads: verdict 0) and 14 fixed ordinary requests (cross-bucket copy / part copy, put part, complete, batch delete with purge, listing, POST upload, buckets '...' and '..b', list parts / complete / abort / delete bucket of bucket '%62': the gRPC-only routes use the literal name); then 3 of 4 cases: one S3 request on a fixture (0,0,0,1,1,2 uniform; rebuilt before every request), bucket b (13/24), other, bb, nb, .uploads, the names '..' / '.' written literally or percent-encoded (refused by the router: no call), '%62' (2/24) or another name with a '%' (%6fther, %2e%2e, %2e, %zz, b%2fx, %2562, %62b, %2euploads, %6; written with %25), or a dotted name the router accepts (..., .b, ..b, b., b.., .%2e.), route uniform over 20 routes (put/get/head/delete object, batch delete, copy with/without REPLACE, copy part, new/put-part/complete/abort/list-parts, get/put/delete tagging, list objects V1/V2 x2, list uploads, put/delete/head bucket, POST upload x2 through a second gateway with an identity), key = 1-6 segments over {x,y,obj,new,..,.,empty,.uploads,u1,other,etc,secret,b,buckets,0001.part,%2e%2e,bb,e,%2f,%252e%252e} with optional leading/trailing slash or a fixed hostile/benign key (climbing, non-climbing '..', .uploads via '..'), written literally or with %2e%2e / %2f escapes; upload ids, copy sources (single, double and triple encoded '..' and '/'), listing prefixes and markers from fixed hostile lists or a generated key; 1 of 4 cases: a random path over {a,b,..,.,empty,.uploads,buckets} through Go's path.Clean, the real ServeMux, util.JoinPath, FullPath.DirAndName, filepath.Base/Dir; non-trivial = 2xx answer (request) / cleaning changed the path (clean); distinct = canonical decoded request incl. fixture"
 	w := newWorld()
 	defer w.e.Close()
 	e := w.e
@@ -707,6 +707,9 @@ func main() {
 		witness(0, "RPutBucket", "...", "", "", "", nil, "plain-bucket-three-dots"),
 		witness(0, "RPut", "..b", "k", "", "", nil, "plain-bucket-dotdot-b"),
 		witness(2, "RListParts", "%62", "k", "u1", "", nil, "plain-listparts-percent-bucket"),
+		witness(2, "RComplete", "%62", "x/done", "u1", "", nil, "plain-complete-percent-bucket"),
+		witness(2, "RAbort", "%62", "k", "u1", "", nil, "plain-abort-percent-bucket"),
+		witness(2, "RDeleteBucket", "%62", "", "", "", nil, "plain-deletebucket-percent-bucket"),
 	}
 	nfix := len(fixtures)
 	for i := 0; i < out.N; i++ {
